@@ -148,6 +148,13 @@ func wrapperTransparency(c *Ctx, rounds int, keep func(name string) bool) {
 					c.Direct("a SyncedEnforcer method returns something else than the Enforcer method it wraps", fmt.Sprintf("%s\nplain:  %v\nsynced: %v", what, outP, outS))
 					continue
 				}
+				if strings.HasPrefix(m.Name, "Self") {
+					// a replayed change came from a peer: announcing it again would echo it round the cluster
+					if len(plain.w.Log) != 0 || len(synced.w.Log) != 0 {
+						c.Direct("a Self* call notified the watcher", fmt.Sprintf("%s\nplain announced %v, synced announced %v", what, plain.w.Log, synced.w.Log))
+					}
+					c.Count("self_calls_silent_checks", 1)
+				}
 				if sp, ss := wrapState(plain, sw), wrapState(synced, sw); sp != ss {
 					c.Direct("a SyncedEnforcer method leaves another state (rules, store, notifications, decisions) than the Enforcer method it wraps", fmt.Sprintf("%s\nplain:  %s\nsynced: %s", what, sp, ss))
 				}
